@@ -12,9 +12,9 @@ import PegVerif.Model.Optimise
   * `GrammarOKS G`   terminals below the end symbol, no `TypeString`, no reference from an emitted
                      rule to a rule without function, and for every `.ualt ks es`: `es ≠ []` and
                      `casesLeadOK ks es` — every case but the default has a key set, and the terminal
-                     tests that `compile` elides in its body (`parentDetect`) pass for every key.
-                     (A case body that starts with `.` or with `e*` over an elided terminal is
-                     rejected: for those the generator's output is wrong, see `swBadG` below.)
+                     tests that `compile` elides in its body (`parentDetect`) pass for every key
+                     (for a body that starts with `.`: every key is below the end symbol, so the
+                     position is inside the input, see `swDotG` below).
   * `LinkedOK G`     rule bodies are implicit pushes, rule ids pairwise distinct;
   * `G.plainS`       no `-inline` node (for the soundness of `CheckAlwaysSucceeds`).
 
@@ -95,7 +95,8 @@ theorem switch_parseF (G : Grammar) (o : Opts) (cfg : Cfg) (inp : List Sym)
 
   `S <- ('a' 'x' / [b-c] 'y' / 'd') !.` after the `-switch` rewrite, written by hand:
   `switch { case 'a': 'a' 'x'; case 'b','c': [b-c] 'y'; default: 'd' }`.  In the emitted code the
-  test of `'a'` is elided (one key), the test of `[b-c]` is elided (`TypeRange`), `'d'` keeps its test. -/
+  test of `'a'` is elided (one key), the test of `[b-c]` is kept (two keys: `parentMultipleKey`),
+  `'d'` keeps its test. -/
 
 def swExG : Grammar := { rules := [
   { name := "S", id := 0, body := .ipush (.seq [
@@ -109,11 +110,21 @@ example : GrammarOKS swExG = true ∧ LinkedOK swExG = true ∧ swExG.plainS ∧
   ⟨by decide, by decide, Grammar.plainS_of_all (by decide), by decide⟩
 
 /-- The elision really happens in this example: the real pass prints fewer tests than the dry pass
-    (`ifNeChr 97` and `ifNotRng 98 99` are gone), so this is not the `-switch`-free theorem again. -/
+    (`ifNeChr 97` is gone), so this is not the `-switch`-free theorem again.  The range test of the
+    two-key case `[b-c]` is printed (repaired: `TypeRange` honours `parentMultipleKey`). -/
 example : ((compileAll {} swExG).find "S").map (fun c =>
       (c.contains (.ifNeChr 97 0), c.contains (.ifNotRng 98 99 0), c.contains (.ifNeChr 100 0),
         c.any (fun i => match i with | .switchOn .. => true | _ => false))) =
-    some (false, false, true, true) := by decide
+    some (false, true, true, true) := by decide
+
+/-- A range with a single key still elides its test: `switch { case 'b': [b-b] 'y'; default: 'd' }`. -/
+def swRng1G : Grammar := { rules := [
+  { name := "S", id := 0, body := .ipush (.seq [
+      .ualt [[(98, 98)]] [.seq [.rng 98 98, .chr 121], .chr 100], .peekNot .dot]) "S" }] }
+
+example : GrammarOKS swRng1G = true := by decide
+example : ((compileAll {} swRng1G).find "S").map (fun c => c.contains (.ifNotRng 98 98 0)) =
+    some false := by decide
 
 /-- The old check rejects the grammar (it has a `-switch` node), the new one is an extension. -/
 example : GrammarOK swExG = false := by decide
@@ -169,22 +180,54 @@ example : (match optimise swSrcG with
     | .ok g => [[97, 120], [98, 121], [100, 122], [101], [100, 120], [102], []].all (swAgree g)
     | .error _ => false) = true := by decide
 
-/-! The side condition is not vacuous in the other direction either: a case body that starts with
-    `.` is compiled to NOTHING under `parentDetect` (the position is not advanced), and the emitted
-    parser is wrong.  `GrammarOKS` rejects such a grammar — and the TEST shows the disagreement. -/
+/-! REPAIRED (was: "a case body that starts with `.` is compiled to NOTHING under `parentDetect`"):
+    `.` directly behind a `case` is now `position++`.  The side condition for it is that every key
+    of the case is below the end symbol (then the position is inside the input); with it the emitted
+    code and the semantics agree. -/
 
-def swBadG : Grammar := { rules := [
+def swDotG : Grammar := { rules := [
   { name := "S", id := 0, body := .ipush (.seq [
       .ualt [[(97, 97)]] [.seq [.dot, .chr 120], .chr 100], .peekNot .dot]) "S" }] }
 
-example : GrammarOKS swBadG = false := by decide
-/-- TEST: on "ax" the semantics accepts, the emitted code (which tests 'x' at position 0) rejects. -/
-example : swAgree swBadG [97, 120] = false := by decide
+example : GrammarOKS swDotG = true := by decide
+/-- The test of `.` is elided, the position is advanced. -/
+example : ((compileAll {} swDotG).find "S").map (fun c =>
+    (c.any (fun i => match i with | .ifNotDot _ => true | _ => false), c.contains .inc)) =
+    some (true, true) := by decide   -- the one `ifNotDot` left is that of `!.`
+/-- TESTS: code and semantics agree ("ax" accepted, "a" / "ay" rejected inside the case, "d" default). -/
+example : [[97, 120], [97], [97, 121], [100], [], [98]].all (swAgree swDotG) = true := by decide
 
-/-- Likewise a case body that starts with a repetition of an elided terminal is rejected. -/
+/-- The side condition is not vacuous: keys that reach the end symbol do not justify eliding the
+    test of `.` (at the end of input `.` fails but `position++` would not) — rejected. -/
 example : GrammarOKS { rules := [
-    { name := "S", id := 0, body := .ipush (.ualt [[(97, 97)]] [.star (.chr 97), .chr 100]) "S" }] } = false := by
+    { name := "S", id := 0, body := .ipush (.seq [
+      .ualt [[(97, END)]] [.seq [.dot, .chr 120], .chr 100], .peekNot .dot]) "S" }] } = false := by
   decide
+
+/-- … and keys that do not imply an elided character test are rejected (`casesLeadOK`). -/
+example : GrammarOKS { rules := [
+    { name := "S", id := 0, body := .ipush (.ualt [[(98, 98)]] [.chr 97, .chr 100]) "S" }] } = false := by
+  decide
+
+/-! REPAIRED (was: "a case body that starts with a repetition of an elided terminal is rejected"):
+    `e*` no longer hands `parentDetect` to its body, which is re-run at later positions; the body
+    keeps its test, the grammar is in the fragment and code and semantics agree. -/
+
+def swStarG : Grammar := { rules := [
+  { name := "S", id := 0, body := .ipush (.seq [
+      .ualt [[(97, 97)]] [.seq [.star (.chr 97), .chr 120], .chr 100], .peekNot .dot]) "S" }] }
+
+example : GrammarOKS swStarG = true := by decide
+example : ((compileAll {} swStarG).find "S").map (fun c =>
+    c.any (fun i => match i with | .ifNeChr 97 _ => true | _ => false)) = some true := by decide
+example : [[97, 120], [97, 97, 97, 120], [97, 97], [100], [120], []].all (swAgree swStarG) = true := by
+  decide
+
+/-- Likewise `&e` and `!e` compile their operand without the flags. -/
+example : ((compileAll {} { rules := [
+    { name := "S", id := 0, body := .ipush (.ualt [[(97, 97)]]
+      [.seq [.peekNot (.chr 97), .chr 98], .chr 100]) "S" }] }).find "S").map (fun c =>
+    c.any (fun i => match i with | .ifNeChr 97 _ => true | _ => false)) = some true := by decide
 
 end PegVerif
 
